@@ -138,6 +138,14 @@ CHECKS["C17"] = dict(
     design="5/C17",
 )
 
+CHECKS["C16"] = dict(
+    engine="E2-history-bfs",
+    technique="exhaustive enumeration of add_reactions / reset_reactions / fit histories on the real MOLGP (all orders x all consecutive splits x reset variants) against dense extended-precision linear algebra",
+    text="Four synthetic training systems (restricted and spin-polarised, with occupation-derivative data) are written as real HDF5 training files and read by the real store_mol_covs; for five kernel configurations (separable exchange kernel with and without pivoted-Cholesky control-point reduction, non-polarised exchange, exchange + correlation-type kernel, polarised kernel) every order of a four-reaction list (plain energy, exchange-only, stoichiometric with unit/noise_factor/weight, orbital-derivative entry), every split of the list into consecutive add_reactions calls and reset / partial-reset variants is executed, and after fit() the labels, noises, per-kernel weights (Kmm^-1 Kmn (K+Sigma)^-1 y with iterative refinement in long double), the training residual (= Sigma applied to the solved reaction weights), order equivariance, the rescaled fit(x) system and compute_likelihood(x) (Gaussian log marginal likelihood) are compared; the per-system covariance, baseline and occupation-derivative integrals are compared with direct grid sums incl. the low-density mask and with Richardson differences.",
+    note="Noises >= 0.02 so that the implementation's 1e-9 jitter is below the 1e-5 tolerance; hyper-parameter optimisation not covered.",
+    design="5/C16",
+)
+
 NOT_YET = {}
 
 
